@@ -8,4 +8,11 @@ FailAtFail == [h1 |-> 0, h2 |-> 1, h3 |-> 0]
 \* nobody fails; an address listed twice
 DialOk == [h1 |-> <<"x">>, h2 |-> <<"y", "x", "x">>, h3 |-> <<"x", "y">>]
 FailAtOk == [h1 |-> 0, h2 |-> 0, h3 |-> 0]
+\* a reload that drops the active health checks: h1 (with checks) and h3 (without) share "x"
+HandlersAct == {"h1", "h3"}
+AddrsAct == {"x"}
+DialAct == [h1 |-> <<"x">>, h3 |-> <<"x">>]
+FailAtAct == [h1 |-> 0, h3 |-> 0]
+ActiveAct == {"h1"}
+NoActive == {}
 =============================================================================
